@@ -49,20 +49,19 @@ Compact ==
   /\ ws' = 0 /\ we' = we - ws
   /\ UNCHANGED <<rd, consumed, guard>>
 
-\* pipe.read(vacant) = n, advance(n)
+\* pipe.read(vacant) = n, advance(n), 1 <= n <= vacant
+\* (written without a bound variable so that TLC can evaluate the action on a pair of states -- the refinement check
+\*  of MCIoRecv -- and Apalache can use `we' \in Int` as the assignment)
 Read ==
   /\ guard = 0 /\ we < Cap
-  /\ \E n \in Int :
-       /\ n >= 1 /\ n <= Cap - we
-       /\ we' = we + n /\ rd' = rd + n
+  /\ we' \in Int /\ we' > we /\ we' <= Cap
+  /\ rd' = rd + (we' - we)
   /\ UNCHANGED <<ws, consumed, guard>>
 
-\* recv returns a guard over a validated message of size k at the head of the window (SizeSufficient: k <= occupied)
+\* recv returns a guard over a validated message of size guard' at the head of the window (SizeSufficient: it fits)
 Hand ==
   /\ guard = 0
-  /\ \E k \in Int :
-       /\ k >= A /\ k % A = 0 /\ k <= we - ws
-       /\ guard' = k
+  /\ guard' \in Int /\ guard' >= A /\ guard' % A = 0 /\ guard' <= we - ws
   /\ UNCHANGED <<ws, we, rd, consumed>>
 
 \* RecvGuard::drop: skip(size()); an emptied window may be moved back to the start
